@@ -12,6 +12,12 @@
    key, repeated / colliding / many declarations) are refused by nobody, so they are enumerated as puts and
    as pre-states whose records carry them (then overwritten, deleted, range-deleted); DeclNeutral /
    DeclEntries: declarations never change statuses or records and each denotes exactly one entry key.
+   Optional fields carry presence and value separately (OxiaDb.tla "Optional fields of a request"): partition
+   key present with the value "" / "a/b" on sequence and ordinary puts, client identity present and empty,
+   expected version -1 / 0, session 0, empty key, deltas absent / zero first / zero later.  WellFormed is
+   transcribed from validateWriteRequest (presence of the partition key, first delta); AdmissionCoversApply:
+   whatever the generator cannot apply because of the request's content is refused before logging;
+   OptNeutral: the value of a present partition key / an empty present client identity changes nothing.
 2. spec -> code: each request is built as a real protobuf and (a) applied by a real kv.DB.ProcessWrite,
    (b) written through a real RF=1 leader controller (WriteBlock), which is then closed and re-created
    (NewTerm + BecomeLeader replay the WAL) and has to accept a further write.  Outcome (accepted / refused /
@@ -59,7 +65,7 @@ def run(ctx):
 
     # 1 + 2: classes x pre-states, one behaviour per transition: set-up, request, restart, probe write
     path, n, r = _db.tlc_export(ctx, "db-c13-steps.cfg", "STEP", "classes")
-    ctx.log("classes: %d requests x pre-states enumerated by TLC (Total, DeclNeutral, DeclEntries hold on %d transitions)" % (n, r.generated))
+    ctx.log("classes: %d requests x pre-states enumerated by TLC (Total, DeclNeutral, DeclEntries, AdmissionCoversApply, OptNeutral hold on %d transitions)" % (n, r.generated))
     res = _db.replay(ctx, binp, path, "leader", SCOPE, "classes-leader")
     _db.report(ctx, res, "c13-leader", "real leader controller deviates from OxiaDb.tla")
     _known(ctx, res, seen)
@@ -68,8 +74,9 @@ def run(ctx):
     _known(ctx, res, seen)
     _db.sample_from(path, "request class replayed through a real RF=1 leader (write, restart, probe write)", ctx)
 
-    # longer behaviours: several class requests in a row (each followed by restart + probe)
-    path, n, _ = _db.tlc_export(ctx, "db-c13-runs.cfg", "RUN", "runs", simulate="num=%d" % (1 if quick else 8), depth=8, workers=1)
+    # longer behaviours: several class requests in a row (each followed by restart + probe); one random request per
+    # level (OxiaDbMC!MNext), so every simulated trace is one behaviour
+    path, n, _ = _db.tlc_export(ctx, "db-c13-runs.cfg", "RUN", "runs", simulate="num=%d" % (300 if quick else 2000), depth=8, workers=1)
     res = _db.replay(ctx, binp, path, "leader", SCOPE, "runs-leader")
     _db.report(ctx, res, "c13-run", "real leader controller deviates from OxiaDb.tla")
     _known(ctx, res, seen)
